@@ -34,11 +34,17 @@ type hEvent struct {
 	Val  int    `json:"val,omitempty"`  // value tag; 0 = use own statement index
 	P    int    `json:"p,omitempty"`    // permutation index of the version list for r / m
 	Tx   int    `json:"tx,omitempty"`   // 1 = BEGIN before this statement, 2 = COMMIT after it, 3 = both (autocommit if 0)
+	// Retry marks a byte-identical re-execution of an earlier statement (same text, values and write time):
+	// it is executed whatever its outcome and is not part of the accepted set.
+	Retry bool `json:"retry,omitempty"`
 }
 
 func (e hEvent) String() string {
 	switch e.T {
 	case "x":
+		if e.Retry {
+			return fmt.Sprintf("w%d:RETRY[%s k%d @%d]", e.W+1, kindNames[e.Kind], e.Key, e.Rank)
+		}
 		return fmt.Sprintf("w%d:%s k%d @%d", e.W+1, kindNames[e.Kind], e.Key, e.Rank)
 	case "r":
 		return fmt.Sprintf("w%d:refresh(p%d)", e.W+1, e.P)
@@ -286,6 +292,13 @@ func (r *hRun) step(i int, e hEvent, res *engine.Result) bool {
 		n, err := c.Affected(sql)
 		r.trans++
 		accepted := err == nil && n == 1
+		if e.Retry {
+			if err != nil && engine.ErrClass(err) != "pk" {
+				res.Violate("retry-error:"+kindNames[e.Kind], "retry %d (%s) failed: %v [%s]", i, e, err, r.h)
+				return false
+			}
+			return true
+		}
 		if err != nil && engine.ErrClass(err) != "pk" {
 			res.Violate("statement-error:"+kindNames[e.Kind], "statement %d (%s) failed: %v [%s]", i, e, err, r.h)
 			return false
